@@ -64,6 +64,19 @@ func (f *sizeGen) values() bool {
 		}
 	}
 	n := rapid.IntRange(2, 5).Draw(t, "nbig")
+	small := rapid.IntRange(0, 2).Draw(t, "smallmember") == 0
+	if old := g.m.units[gn.Key(k)]; old != nil && old.Kind == "atomic" {
+		// a container is sent again with the members it has (as tgen.resendAtomic does): a device cannot drop part of an
+		// atomic group by leaving it out - nothing it streams says so, and a client's merged view keeps the member
+		n, small = 0, false
+		for _, u := range old.Ups {
+			if len(u.Path) == 1 && u.Path[0].Name == "state" {
+				small = true
+			} else {
+				n++
+			}
+		}
+	}
 	for i := 0; i < n; i++ {
 		f.serial++
 		v := gn.Val{Kind: "string", S: fmt.Sprintf("s%d-", f.serial)}
@@ -81,7 +94,7 @@ func (f *sizeGen) values() bool {
 		}
 		o.Ups = append(o.Ups, u)
 	}
-	if rapid.IntRange(0, 2).Draw(t, "smallmember") == 0 {
+	if small {
 		o.Ups = append(o.Ups, Up{Path: []gn.Elem{{Name: "state"}}, Val: g.val()})
 	}
 	g.emit(o)
